@@ -2,7 +2,8 @@
 
 Two halves:
   * worker (``python c12_time.py <cases.jsonl> <start> <limit_s>``): runs each case on the implementation under an in-process
-    SIGALRM deadline and prints one JSON result line per case (outcome class, best wall time, growth of the peak RSS);
+    deadline on the CPU time of the call (ITIMER_PROF - wall time is NOT used, so machine load cannot fake a hang) and prints one
+    JSON result line per case (outcome class, minimum CPU time over the repetitions, growth of the peak RSS);
   * parent API (``run_cases(cases, limit)``): starts the worker in a CHILD PROCESS, reads its result lines with a hard
     wall-clock watchdog per case (the worker is killed and restarted behind the stuck case when even the alarm does not
     come back, e.g. a C-level loop that never polls signals, or memory growth up to the RLIMIT_AS cap).
@@ -21,7 +22,7 @@ import subprocess
 import sys
 import time
 
-HARD_GRACE = 4.0          # seconds the parent waits beyond the worker's own deadline before it kills the worker
+HARD_WALL = 12.0          # the parent kills the worker when a case shows no result after max(60 s, HARD_WALL * limit) of WALL time per repetition
 MEM_CAP = 3 << 30         # RLIMIT_AS of the worker: a run-away allocation becomes MemoryError (an exception class != TSE)
 
 
@@ -186,7 +187,11 @@ def _worker(path, start, limit):
 
     def fire(*a):
         raise _Hang()
+    # the deadline counts CPU time of this process (ITIMER_PROF), not wall time: a loaded or swapping machine cannot make a
+    # fast call look like a hang
+    signal.signal(signal.SIGPROF, fire)
     signal.signal(signal.SIGALRM, fire)
+    import gc
     out = sys.stdout
     with open(path) as f:
         cases = [json.loads(line) for line in f]
@@ -199,8 +204,16 @@ def _worker(path, start, limit):
         best, outcome = None, None
         rss0 = resource.getrusage(resource.RUSAGE_SELF).ru_maxrss
         for _ in range(reps):
-            signal.setitimer(signal.ITIMER_REAL, limit)
-            t0 = time.perf_counter()
+            if reps > 1:
+                gc.collect()
+                gc.disable()
+            # an armed CPU-time timer makes Linux account CPU time by ticks (4 ms), so the runs that are MEASURED (reps > 1) are
+            # guarded by a generous wall-clock alarm (3 * limit) instead; runs that are only watched use the CPU-time deadline
+            if reps > 1:
+                signal.setitimer(signal.ITIMER_REAL, 3 * limit)
+            else:
+                signal.setitimer(signal.ITIMER_PROF, limit)
+            t0 = time.process_time()
             try:
                 fn(s)
                 o = "ok"
@@ -209,11 +222,13 @@ def _worker(path, start, limit):
             except BaseException as e:  # noqa
                 o = type(e).__name__
             finally:
-                dt = time.perf_counter() - t0
+                dt = time.process_time() - t0
+                signal.setitimer(signal.ITIMER_PROF, 0)
                 signal.setitimer(signal.ITIMER_REAL, 0)
+                gc.enable()
             outcome = o if outcome in (None, o) else outcome + "/" + o
             best = dt if best is None else min(best, dt)
-            if o == "HANG" or dt > limit / 4:
+            if o == "HANG" or dt > 0.3:          # repetitions only serve to de-noise short runs
                 break
         rss1 = resource.getrusage(resource.RUSAGE_SELF).ru_maxrss
         out.write(json.dumps({"i": i, "outcome": outcome, "secs": round(best, 6), "rss_kb": rss1 - rss0}) + "\n")
@@ -272,7 +287,7 @@ def run_cases(cases, limit=5.0, workdir="/verif/work/C12", max_hangs=None, tag="
             enough = False
             while True:
                 reps = cases[cur].get("reps", 1) if cur is not None else 1
-                line = _readline(p, buf, 120 if startup else (limit + HARD_GRACE) * reps)
+                line = _readline(p, buf, 180 if startup else max(60.0, HARD_WALL * limit) * max(1, min(reps, 2)))
                 if line is None:
                     break
                 startup = False
